@@ -280,6 +280,9 @@ def r21c(ctx, P):
            "match does" % (bad_hi[0][1], bad_hi[0][0].loc()), bad_hi[0][0].loc() if bad_hi else Site(f, gb).loc())
 
 
+THOROUGH_FEATURES = ['r21c']
+
+
 def run(ctx, progs):
     P = progs.get("default")
     r21a(ctx, P)
